@@ -9,11 +9,14 @@
   for every text and separator, incl. first elements longer than the 8 bit `first` field), and
   `map_refinement` (for every history of assignments and removals with non-empty paths a query of the
   tree returns what the map holds: get-after-set, independence of different paths, remove = remove the
-  prefix and nothing else).  Statement only (checked by the correspondence run): sub-tree views,
-  mpt_path_last, rebuilding with mpt_path_add/del, binary length mode, an assign character ≠ 0.
+  prefix and nothing else), for the node tree of the global configuration and (`map_refinement_items`) for the
+  item arrays of the private C++ configuration `mpt::config::root` (`Impl/ConfigItems.lean`).
+  Statement only (checked by the correspondence run): sub-tree views, mpt_path_last, rebuilding with
+  mpt_path_add/del, binary length mode, an assign character ≠ 0.
 -/
 import MptModel.Lemmas.ConfigMap
 import MptModel.Lemmas.ConfigPath
+import MptModel.Lemmas.ConfigItemsMap
 namespace Mpt.C10
 open Mpt Mpt.Config Mpt.PathMap
 
@@ -104,6 +107,31 @@ theorem config_global_ops (l : List CNode) (k : Key) (hk : k ≠ []) (v : Value)
         cases hr : removeExact l (e :: es) with
         | none => simp [hr] at h; simp [h.1]
         | some l2 => simp [hr] at h; simp [h.1]
+
+/-- The private C++ configuration (`config::root::assign/remove/query` on its item arrays): for all histories of
+    assignments and removals (non-empty paths) from the empty object no slot is ever unused (so the slot re-use
+    branch of `mpt_config_item_reserve` is never taken), and a value query for any path returns exactly what the
+    map `set`/`removePrefix` holds: get-after-set, independence, remove = the prefix and nothing else. -/
+theorem map_refinement_items (ops : List Op) (hk : ∀ op ∈ ops, op.key ≠ []) :
+    AllUsed (ops.foldl stepI []) ∧
+    ∀ k, k ≠ [] → ivalueAt (ops.foldl stepI []) k = PathMap.get (ops.foldl stepS []) k := by
+  obtain ⟨hu, ha⟩ := agreeI_foldl ops [] [] (by simp [AllUsed])
+    (by intro k _; simp [toC, valueAt_nil_list, PathMap.get]) hk
+  exact ⟨hu, fun k hk' => by rw [ivalueAt_toC k _ hu]; exact ha k hk'⟩
+
+example : ivalueAt ([Op.set [[97], [98]] [1], Op.set [[97], [99]] [2], Op.del [[97]], Op.set [[100]] [3]].foldl stepI []) [[100], [98]] = none := by
+  have := (map_refinement_items [Op.set [[97], [98]] [1], Op.set [[97], [99]] [2], Op.del [[97]], Op.set [[100]] [3]]
+    (by simp [Op.key])).2 [[100], [98]] (by simp)
+  rw [this]
+  decide
+
+/-- `config::root::query` with a value handler returns the value found at exactly the path -/
+theorem root_query_value (l : List Item) (k : Key) (x : Value) :
+    rootQuery l k = .ok x ↔ ivalueAt l k = some x := by
+  simp only [rootQuery, ivalueAt]
+  cases itemFind l k with
+  | none => simp
+  | some c => cases hv : c.value <;> simp [hv]
 
 /-- the full statement of the map clause incl. sub-tree views: a view with base path `b` acts on the map at `b ++ k` -/
 def map_refinement_statement : Prop :=
